@@ -154,8 +154,9 @@ pub fn fmt_req(req: &Req) -> String {
     let t: Vec<String> = req.text.iter().map(|(c, k)| format!("{:X}:{}", c, k)).collect();
     let pre: Vec<String> = req.pre.iter().map(|c| format!("{:X}", c)).collect();
     let post: Vec<String> = req.post.iter().map(|c| format!("{:X}", c)).collect();
+    let nfvs = match req.nf_vs { Some(g) => format!(" nfvs={}", g), None => String::new() };
     format!(
-        "text={} dir={} script={} lang={} feats={} flags={} level={} pre={} post={}",
+        "text={} dir={} script={} lang={} feats={} flags={} level={} pre={} post={}{}",
         t.join(","),
         dir_name(req.dir),
         req.script.clone().unwrap_or("-".into()),
@@ -165,6 +166,7 @@ pub fn fmt_req(req: &Req) -> String {
         req.level,
         if pre.is_empty() { "-".to_string() } else { pre.join(",") },
         if post.is_empty() { "-".to_string() } else { post.join(",") },
+        nfvs,
     )
 }
 
@@ -198,6 +200,7 @@ pub fn parse_req(s: &str) -> Req {
             }
             "flags" => r.flags = v.parse().unwrap_or(0),
             "level" => r.level = v.parse().unwrap_or(0),
+            "nfvs" => r.nf_vs = v.parse().ok(),
             "pre" => {
                 if v != "-" {
                     r.pre = v.split(',').filter_map(|x| u32::from_str_radix(x, 16).ok()).collect()
